@@ -149,9 +149,42 @@ def gen_models(ctx, n):
             else:
                 lines, _ = c02_models.hostile_model_script(r, hostile=True, ws=r.random() < 0.3, size=1)
             lines = [l for l in lines if not l.startswith("addreset ")]      # 1.x has no resets
+            if kind.startswith("valid"):
+                lines = add_math_blocks(r, lines, _)
             lines.append("removeencapsulationid 0")                           # a 1.x group cannot carry it
             out.append((kind, ";".join(lines)))
     return out
+
+
+MATH_ONLY = '<math xmlns="http://www.w3.org/1998/Math/MathML">'
+
+
+def add_math_blocks(r, lines, info):
+    """several math blocks per component, some WITHOUT any cn / cellml:units (an equation between ci operands): appended
+    through the API so that the 2.0 original holds them too"""
+    extra = []
+    owner = info.get("var_owner", {})
+    for c in info.get("components", []):
+        if c in info.get("imported", []):
+            continue
+        vs = [info["names"][v] for v, o in owner.items() if o == c]
+        if not vs or r.random() < 0.5:
+            continue
+        for _k in range(r.randint(1, 2)):
+            v = r.choice(vs)
+            if r.random() < 0.6:
+                m = MATH_ONLY + "<apply><eq/><ci>%s</ci><apply><plus/><ci>%s</ci><ci>%s</ci></apply></apply></math>" % (v, v, r.choice(vs))
+            else:
+                m = ('<math xmlns="http://www.w3.org/1998/Math/MathML" xmlns:cellml="http://www.cellml.org/cellml/2.0#"><apply><eq/><ci>%s</ci>'
+                     '<cn cellml:units="second">%d</cn></apply></math>') % (v, r.randint(0, 9))
+            extra.append("appendmath %d %s" % (c, S(m)))
+    if not extra:
+        return lines
+    # before the closing fixvariableinterfaces / linkunits calls
+    k = len(lines)
+    while k > 0 and lines[k - 1].split(" ")[0] in ("fixvariableinterfaces", "linkunits"):
+        k -= 1
+    return lines[:k] + extra + lines[k:]
 
 
 def docs_for_model(r, root20, has_imports, per_model):
@@ -167,6 +200,9 @@ def docs_for_model(r, root20, has_imports, per_model):
         if k >= 2 and r.random() < 0.7:
             want = r.sample(sorted(c14_docs.DECORATIONS), r.randint(1, 4))
             doc, decs = c14_docs.decorate(doc, random.Random(r.getrandbits(32)), want)
+        if r.random() < 0.7:
+            doc, nsm = c14_docs.ns_variation(doc, random.Random(r.getrandbits(32)))
+            decs = decs + nsm
         V = c14_docs.VNS[version]
         opts = {"comments": "comments" in decs}
         site = r.choice(["where_used", "root", "math"])
@@ -177,7 +213,8 @@ def docs_for_model(r, root20, has_imports, per_model):
         if r.random() < 0.25:
             opts["prefix"] = {V: r.choice(["c", "cml", "cellml1"]), c14_docs.CMETA: r.choice(["cmeta", "meta"])}
         text = c14_docs.serialize(doc, opts)
-        out.append({"version": version, "style": st, "decorations": decs, "text": text, "coq": coq_only and not decs,
+        out.append({"version": version, "style": st, "decorations": decs, "text": text,
+                    "coq": coq_only and not [d for d in decs if not d.startswith("ns:")],
                     "site": site})
     return out
 
@@ -240,7 +277,8 @@ def evaluate_doc(ctx, info, cpp_line, ml_doc_line, names, stats):
         stats["not_well_formed"] += 1
     elif "LI" not in ml:
         problems.append(("violation", "extracted model gave no answer on a document: %s" % (ml_doc_line or "")[:200], {}))
-    elif ml.get("MS") == "0":
+    elif ml.get("MS") == "0" or c14_docs.cellml_prefix_foreign(info["text"]):
+        # outside the TREE-level model of the namespace rewriting (Load1xDefs header); the declaration layer still applies
         stats["math_out_of_scope"] += 1
     elif entp.startswith("OOS"):
         problems.append(("violation", "transformed model outside the entity model: " + entp, {}))
@@ -296,7 +334,8 @@ def evaluate_doc(ctx, info, cpp_line, ml_doc_line, names, stats):
         c1 = content_of_dump(dp, False) if dp != "-" else None
         if c0 != c1:
             fails.append(("content", "content of the transformed model differs from the 2.0 original"))
-        if origin["valid"]:
+        if origin["valid"] and not origin.get("prefixed_mathml"):
+            # (the Validator's MathML DTD check rejects prefixed MathML element names, in a 2.0 document too)
             lv = issues_cpp(vp, names)
             if lv is None or lv:
                 fails.append(("validator", "the Validator accepts the 2.0 original and not the transformed model: %s" % (sorted(set(lv)) if lv else vp)))
@@ -349,6 +388,61 @@ def evaluate_doc(ctx, info, cpp_line, ml_doc_line, names, stats):
                 what = "units of the same name declared in different components are hoisted side by side: the Validator rejects the transformed model (%s)" % sorted(set(lv))
                 if not ctx.known_finding("C14-component-units-name-clash", what):
                     problems.append(("violation", what, {}))
+    return problems
+
+
+def evaluate_math_ns(it, cpp_line, n_line, stats):
+    """the stored math strings of the transformed model, with their namespace declarations: against MathNsDefs.stored_math,
+    and the oracle "no CellML 1.0 / 1.1 namespace is left in the stored MathML" """
+    problems = []
+    cf = cpp_line.split("\t")
+    if cf[0] != "ok" or len(cf) < 4 or cf[2].startswith("OOS") or it.get("doc") is None:
+        return problems
+    doc = it["doc"]
+    if doc.ns not in (c14_docs.CELLML10, c14_docs.CELLML11) or doc.name != "model":
+        return problems
+    ent = C2.parse_ent(cf[2])
+    stored = {}
+    dup = set()
+
+    def comp(c):
+        nm = unS(c[1])
+        if nm in stored:
+            dup.add(nm)
+        stored[nm] = unS(c[6])
+        for k in c[9]:
+            comp(k)
+    for c in ent[5]:
+        comp(c)
+    for nm, ms in stored.items():
+        if c14_docs.CELLML10.encode() in ms or c14_docs.CELLML11.encode() in ms:
+            problems.append(("violation", "the MathML stored for a transformed component still mentions a CellML 1.0 / 1.1 namespace",
+                             {"component": nm.decode("utf-8", "replace"), "math": ms.decode("utf-8", "replace")[:2000]}))
+            break
+    blocks = it.get("blocks")
+    if not blocks or n_line is None:
+        return problems
+    nf = n_line.split("\t")
+    if nf[0] != "NM" or len(nf) != len(blocks) + 1:
+        problems.append(("violation", "extracted model gave no answer on the math blocks: %s" % n_line[:200], {}))
+        return problems
+    stats["math_blocks"] = stats.get("math_blocks", 0) + len(blocks)
+    per_comp = {}
+    for (cname, _), pred in zip(blocks, nf[1:]):
+        per_comp.setdefault(cname, []).append(pred)
+    for cname, preds in per_comp.items():
+        key = (cname or "").encode("utf-8")
+        if cname is None or key in dup or key not in stored:
+            stats["math_blocks_unmatched"] = stats.get("math_blocks_unmatched", 0) + len(preds)
+            continue
+        lib = c14_docs.stored_math_raw(stored[key])
+        if any(p.startswith("!1x ") for p in preds):
+            problems.append(("violation", "model instance of C14_stored_math_no_1x_declaration fails", {}))
+        if lib != preds:
+            problems.append(("violation", "stored math (qualified names, xmlns declarations, attributes) differs from MathNsDefs.stored_math",
+                             {"component": cname, "library": stored[key].decode("utf-8", "replace")[:2000], "library_raw": lib, "model_raw": preds}))
+            break
+        stats["math_blocks_compared"] = stats.get("math_blocks_compared", 0) + len(preds)
     return problems
 
 
@@ -413,7 +507,16 @@ def run_documents(ctx, items, ml_lines, cpp, mdl, names, stats, tag):
         if it["doc"] is not None:
             it["dline"] = len(ml_lines) + len(d_lines)
             d_lines.append("D " + c14_docs.to_sx(it["doc"], sort_attrs=False) + "\t( )")
-    ml_out = C2.shards(ctx, mdl, tag + "_ml", ml_lines + d_lines)
+    # the namespace-declaration layer: the math elements with prefixes and xmlns declarations
+    n_lines = []
+    for it in live:
+        if it["doc"] is not None and it["doc"].ns in (c14_docs.CELLML10, c14_docs.CELLML11) and it["doc"].name == "model":
+            blocks = c14_docs.math_blocks(it["text"])
+            if blocks:
+                it["blocks"] = blocks
+                it["nline"] = len(ml_lines) + len(d_lines) + len(n_lines)
+                n_lines.append("N (" + "".join(" " + b for _, b in blocks) + " )")
+    ml_out = C2.shards(ctx, mdl, tag + "_ml", ml_lines + d_lines + n_lines)
     t_out = C2.shards(ctx, cpp, tag + "_t", ["T " + it["text"].encode("utf-8").hex() for it in live])
     results = []
     for it in items:
@@ -433,7 +536,8 @@ def run_documents(ctx, items, ml_lines, cpp, mdl, names, stats, tag):
                 st = it["dinfo"]["style"]
                 # (printable includes "every number survives 15 digits": a validator-accepted model outside it is C02's finding)
                 in_domain = printable and expressible
-                origin = {"d0": it["d0"], "valid": it["valid"] and expressible, "in_domain": in_domain, "ml": m}
+                origin = {"d0": it["d0"], "valid": it["valid"] and expressible, "in_domain": in_domain, "ml": m,
+                          "prefixed_mathml": "ns:prefixed_mathml" in it["dinfo"]["decorations"]}
                 if it["dinfo"] is not None and it.get("first_of_model", True):
                     pass
                 stats["models_expressible"] += expressible
@@ -462,6 +566,11 @@ def run_documents(ctx, items, ml_lines, cpp, mdl, names, stats, tag):
         except Exception as e:        # noqa: BLE001  glue failure: never silent
             import traceback
             problems.append(("violation", "check glue crashed on this document: %r" % (e,), {"trace": traceback.format_exc()[-1500:]}))
+        try:
+            problems += evaluate_math_ns(it, cpp_line, ml_out[it["nline"]] if "nline" in it else None, stats)
+        except Exception as e:        # noqa: BLE001
+            import traceback
+            problems.append(("violation", "check glue crashed on the stored math of this document: %r" % (e,), {"trace": traceback.format_exc()[-1500:]}))
         it["cpp"] = cpp_line
         it["ml"] = dl
         results.append((it, problems))
